@@ -55,9 +55,57 @@ func checkSkipOptionsEffective(p *Program, r *Result, rule string) {
 			}
 			return false
 		}
+		// guard by data: the record comes out of a collection that is emptied when the option is set
+		// (if opts.Skip { list = nil }; for _, x := range list { write(x) })
+		emptied := func(ci ssa.Instruction) bool {
+			call, ok := ci.(ssa.CallInstruction)
+			if !ok {
+				return false
+			}
+			for _, a := range call.Common().Args {
+				u, ok := a.(*ssa.UnOp)
+				if !ok || u.Op != token.MUL {
+					continue
+				}
+				ia, ok := u.X.(*ssa.IndexAddr)
+				if !ok {
+					continue
+				}
+				phi, ok := ia.X.(*ssa.Phi)
+				if !ok {
+					continue
+				}
+				nilFromSet, othersFromUnset := false, true
+				for i, e := range phi.Edges {
+					pr := phi.Block().Preds[i]
+					// the option-true side: pr is (dominated by) the true successor of a test of the option
+					onTrue := false
+					for d := pr; d != nil; d = d.Idom() {
+						if len(d.Preds) != 1 {
+							continue
+						}
+						pp := d.Preds[0]
+						if iff, ok := pp.Instrs[len(pp.Instrs)-1].(*ssa.If); ok && isOpt(iff.Cond) && pp.Succs[0] == d {
+							onTrue = true
+						}
+					}
+					if isNilConst(e) {
+						if onTrue {
+							nilFromSet = true
+						}
+					} else if onTrue {
+						othersFromUnset = false
+					}
+				}
+				if nilFromSet && othersFromUnset {
+					return true
+				}
+			}
+			return false
+		}
 		var guardedUp func(ci ssa.Instruction, depth int) bool
 		guardedUp = func(ci ssa.Instruction, depth int) bool {
-			if guarded(ci) {
+			if guarded(ci) || emptied(ci) {
 				return true
 			}
 			f := ci.Parent()
